@@ -83,11 +83,27 @@ def gen_base_op(rng, sim, pool, others):
             m |= 1 << rng.randint(0, sim.count + 1)
         return m
 
+    def batch():
+        # argument of add_taxa: Taxon objects of this and of the OTHER namespaces, non-members repeated
+        out = [T() for _ in range(rng.randint(0, 4))]
+        non = [t for t in out if t not in sim.idx]
+        if non and rng.random() < 0.6:
+            for _ in range(rng.randint(1, 2)):
+                out.insert(rng.randint(0, len(out)), rng.choice(non))
+        elif out and rng.random() < 0.3:
+            out.insert(rng.randint(0, len(out)), rng.choice(out))
+        return out
+
     k = rng.random()
-    if k < 0.13:
+    if k < 0.10:
         return ["NewTaxon", L()]
+    if k < 0.13:
+        return ["AddTaxa", batch(), rng.randrange(3)]
     if k < 0.17:
-        return ["NewTaxa", [L() for _ in range(rng.randint(0, 3))]]
+        ls = [L() for _ in range(rng.randint(0, 3))]
+        if ls and rng.random() < 0.4:
+            ls.insert(rng.randint(0, len(ls)), rng.choice(ls))      # the same label twice in one batch
+        return ["NewTaxa", ls]
     if k < 0.24:
         return ["RequireTaxon", L(), CS()]
     if k < 0.34:
@@ -215,6 +231,10 @@ def gen_mcase(rng, maxlen):
                     items.append(["t", rng.randrange(uni.nobj)])
                 else:
                     items.append(["l", rng.randrange(len(pool))])
+            if items and rng.random() < 0.5:
+                # the same Taxon object / the same label more than once in the initialiser
+                for _ in range(rng.randint(1, 2)):
+                    items.insert(rng.randint(0, len(items)), list(rng.choice(items)))
             construct(["items", items], mut, cs)
         elif k < 0.95:
             ops.append(["MScopedCopy", h])
@@ -236,6 +256,12 @@ def apply_base(ns, op, pool, objs, reg):
             ns.add_taxa([objs[op[1]]])
         else:
             ns.add_taxon(objs[op[1]])
+        return ["OUnit"]
+    if name == "AddTaxa":
+        batch = [objs[i] for i in op[1]]
+        v = op[2] if len(op) > 2 else 0
+        r = ns.add_taxa((t for t in batch) if v == 1 else tuple(batch) if v == 2 else batch)
+        assert r is None
         return ["OUnit"]
     if name == "NewTaxon":
         return ["OTax", reg(ns.new_taxon(pool[op[1]]))]
@@ -326,7 +352,7 @@ def observe_m(case):
             if name == "MOn":
                 bop = op[2]
                 refs = [bop[1]] if bop[0] in ("AddTaxon", "RemoveTaxon", "Relabel", "TaxonBitmask") else \
-                       (bop[1] if bop[0] == "TaxaBitmask" else [])
+                       (bop[1] if bop[0] in ("TaxaBitmask", "AddTaxa") else [])
                 if op[1] >= len(nss) or any(i >= len(objs) for i in refs):
                     raise base.core_skip()
                 out = apply_base(nss[op[1]], bop, pool, objs, reg)
@@ -392,8 +418,8 @@ def observe_m(case):
             out = ["OErr", core.exc_enum(e)]
         state = []
         for ns in nss:
-            members = [[reg(t), ns.accession_index(t)] for t in ns]
-            bits = [ns.taxon_bitmask(t) for t in ns] if case.get("probe") else None
+            members = [[reg(t), base.acc_index(ns, t)] for t in ns]
+            bits = [(ns.taxon_bitmask(t) if i >= 0 else -1) for t, (_r, i) in zip(ns, members)] if case.get("probe") else None
             proto = bool(len(ns) == len(members) and all(t in ns for t in ns) and all(ns[i] is t for i, t in enumerate(ns)))
             state.append({"m": members, "count": ns.all_taxa_bitmask().bit_length(), "mut": bool(ns.is_mutable),
                           "cs": bool(ns.is_case_sensitive), "labels": [pool.index(t.label) for t in ns],
@@ -427,6 +453,8 @@ def oracle_m(case, obs):
         for h, rec in enumerate(state):
             idx = {}
             for t, i in rec["m"]:
+                if i < 0:
+                    return ("namespace %d lists taxon %d without an accession index after step %d %s" % (h, t, step, op), "member-without-bit")
                 if t in idx:
                     return ("namespace %d lists taxon %d twice after step %d %s" % (h, t, step, op), "duplicate-member")
                 if i in idx.values():
@@ -461,6 +489,20 @@ def oracle_m(case, obs):
                     want = (op[2][1], p["cs"]) if op[2][0] == "SetMutable" else (p["mut"], op[2][1])
                     if (rec["mut"], rec["cs"]) != want:
                         return ("%s(%s) left flags %s (step %d)" % (op[2][0], op[2][1], (rec["mut"], rec["cs"]), step), "flag-setter")
+                if h == target and op[2][0] == "AddTaxa":
+                    pm = [t for t, _ in p["m"]]
+                    new = []
+                    for t in op[2][1]:
+                        if t not in pm and t not in new:
+                            new.append(t)
+                    if p["mut"] or not new:
+                        if out != ["OUnit"] or [t for t, _ in rec["m"]] != pm + new:
+                            return ("namespace %d: add_taxa(%s) to members %s gave %s, members %s (step %d)" % (h, op[2][1], pm, out, [t for t, _ in rec["m"]], step), "add-taxa-batch-members")
+                        if [idx[t] for t in new] != list(range(p["count"], p["count"] + len(new))) or rec["count"] != p["count"] + len(new):
+                            return ("namespace %d: add_taxa(%s): new members got indices %s, counter %d -> %d (step %d)"
+                                    % (h, op[2][1], [idx[t] for t in new], p["count"], rec["count"], step), "add-taxa-batch-bits")
+                    elif out != ["OErr", "TypeErr"] or rec["m"] != p["m"] or rec["count"] != p["count"]:
+                        return ("namespace %d: add_taxa(%s) with a non-member on an immutable namespace: %s (step %d)" % (h, op[2][1], out, step), "add-taxa-immutable")
                 if h == target and not p["mut"] and op[2][0] != "SetMutable" and set(idx) - set(pidx):
                     return ("immutable namespace %d gained a member at step %d %s" % (h, step, op), "immutable-grew")
         if created:
